@@ -72,8 +72,8 @@ meta("C04",
 meta("C07",
      rule="G4 hostile text (empty/blank lines, every record letter with 0..10 fields from a pool of boundary atoms, printable/non-printable/non-ASCII garbage, very long fields, deep JSON) and single-point mutants of generated valid lines/documents, x vlevel 0-3 x version {None,gfa1,gfa2} x dialect, through Line(), Gfa(str|list), from_file, add_line; then follow-up public calls (line/segment/try_get_*/rm/validate/str, get/set/validate_field/field_to_s/delete/set_datatype) with hostile names and values; bin/gfapy-validate on generated files; every call runs under a logical step budget (5e6 + 5000*bytes function entries + loop back-edges inside gfapy/); non-trivial = case that reached a raise site not seen before in its shard Plus API-call histories (additions, removals, renames, tag and field edits incl. fragment external, probes) run through the client classifier; every field name of every record type is offered to set(); line instances are removed. Systematic stratum first: every field of every record type (64 slots) replaced by each of 36 atoms, levels 0/1/3, then a deterministic sweep (names, writers, validations, every field read, group resolution, removal of every line).",
      budget={"quick": 35, "thorough": 500},
-     min_counts={"quick": {"systematic_documents": 2500, "systematic_slots": 60, "deep_nesting_documents": 3, "histories": 200, "public_calls": 30000, "gfapy_errors": 5000, "cli_runs": 20}},
-     assumptions=["files are written as UTF-8 text; undecodable bytes and missing files are environment faults outside the claim",
+     min_counts={"quick": {"systematic_documents": 2500, "systematic_slots": 60, "files_with_undecodable_bytes": 100, "deep_nesting_documents": 3, "histories": 200, "public_calls": 30000, "gfapy_errors": 5000, "cli_runs": 20}},
+     assumptions=["missing or unreadable files are environment faults outside the claim (files whose bytes are not UTF-8 text are inside it since the eighth round)",
                   "termination is restated as bounded progress: no call may exceed the deterministic step budget; a wall-clock watchdog firing is inconclusive"])
 
 meta("C03",
